@@ -1,8 +1,21 @@
 #!/bin/bash
-# offline set-up: full .vo build of the Coq development, extraction, OCaml driver
-set -e
-cd "$(dirname "$0")/coq"
+# offline set-up: full .vo build of the Coq development (never -vos), extraction, OCaml drivers.
+# make -k: one file that does not compile must not take the other properties' proofs down with it;
+# every check re-builds and inspects its own Properties_<id>.vo and reports what does not check.
+cd "$(dirname "$0")"
+python3 -c "from tools import common; common.coq_project()"
+cd coq
 coq_makefile -f _CoqProject -o Makefile
-timeout 3000 make -j16
+timeout 3000 make -k -j16
 cd ..
-python3 -c "from tools import common; print(common.build_driver())"
+python3 - <<'PY'
+import os, re
+from tools import common
+fams = [None] + sorted(m.group(1) for f in os.listdir(common.COQ) for m in [re.match(r"Extract_(\w+)\.v$", f)] if m)
+for f in fams:
+    try:
+        print(common.build_driver(f))
+    except common.BuildError as e:
+        print("driver", f, "does not build:", str(e)[:500])
+PY
+exit 0
